@@ -4,7 +4,9 @@ import Driver.C03
 C10 driver channel.
 
   c10 mon <bp|pb|bb|bfp> <spec> <pre> <run> <follow>     (op syntax as in channel c03)
-     bfp    = forget + one or two prunes while a backup is parked (run contains the forget's snapshot removals)
+     bfp    = forget + one or two prunes while a backup is parked (run contains the forget's snapshot removals; with another
+              complete backup between the two prunes and/or the follow-up prune later than keep-delete after the marking — the
+              spec's parameter code; the judgement does not depend on it)
      run    = interleaved storage operations of command A (parked before its k-th operation) and command B
      follow = operations of the follow-up prune
   observation `ok` iff the pre-state is consistent, after EVERY prefix of `run` nothing a visible snapshot needs is lost
